@@ -14,7 +14,7 @@ RULE = ("(c) schedules: for a tree whose 5 (quick) / 6 (thorough) files all pass
         "content; hook E6 first gathers what the collector would receive, then delivers it in the selected order), one "
         "seam at a time, plus {identity, reverse}^4 across the seams, and the same for a tree with hard links next to a copy under "
         "--rf-under 3 / --rf-over 2 / --rf-under 2 (all 5! orders per seam), for a class of five files whose names differ only in invalid UTF-8 bytes / letter case, and for --skip-content-hash (three stages); (a) every --threads spec name in {none, main, "
-        "default, ssd} x (r,s) in {0,1,2,64}^2 and pairs main:x + default:y, and 8 large-pool specs x transforms using $IN / $OUT on a tree with equal base names in different directories; (b) every permutation of 3-4 roots and "
+        "default, ssd} x (r,s) in {0,1,2,64}^2 and pairs main:x + default:y, 8 pool shapes on a file with 40 names (more hard links than a small pool has task permits) next to a copy under the ssd and unknown pins, and 8 large-pool specs x transforms using $IN / $OUT on a tree with equal base names in different directories; (b) every permutation of 3-4 roots and "
         "--stdin, --stdin together with --transform (fclones starts child processes that inherit its descriptors: both orders of 'child runs' / 'fclones signals the child' at every signal the run sends, by pausing the subject at the kill call), and overlapping roots (r, r/sub) in both orders x walking-pool sizes x {--depth 1/2, --hidden, -L}; (e) --cache cold / warm / warm again under transforms that keep, shorten and double the data: report body identical to the uncached one; (d) hash function x --max-prefix-size x --max-suffix-size x disk kind x cache, and a tree split over two devices (scratch fs + loop mount) with every pair of kinds in {ssd, hdd, unknown}^2 pinned per device. A state is one complete "
         "execution of the real binary under one schedule/configuration; transitions are the messages delivered at the "
         "seams. Invariant: report body (lengths, hashes, paths, order) byte-identical within (a)-(c); partition into "
@@ -57,6 +57,9 @@ SEAM_TREE_ODD = [
     {"p": "r/d\udcff/x", "k": "file", "c": ["base", 70000, 1]}, {"p": "r/d\udcfe/x", "k": "file", "c": ["base", 70000, 1]},
     {"p": "r/Caf\udce9", "k": "file", "c": ["base", 70000, 1]},
 ]
+# a 20 KiB file with 40 names and one independent copy
+MANY_LINKS = [{"p": "r/orig", "k": "file", "c": ["base", 20000, 5]}] + \
+    [{"p": "r/l/h%02d" % i, "k": "hard", "to": "r/orig"} for i in range(39)] + [{"p": "r/copy", "k": "file", "c": ["base", 20000, 5]}]
 SITES = ["scan", "rehash#0", "rehash#1", "rehash#2"]
 
 
@@ -102,6 +105,11 @@ def cases(tier, seed):
            ["-t", "ssd:32,32"], ["-t", "default:2,64"], ["-t", "main:64", "-t", "default:64,1"]]
     for tr in (["--transform", "cat $IN"], ["--transform", "fcv-tr keep $IN $OUT"]):
         out.append({"kind": "threads", "tree": "multi", "specs": big, "args": tr, "repeat": 2})
+    # one file with many names (more hard links than a small pool has task permits) next to a copy: every pool shape ends
+    many = [["-t", "1"], ["-t", "2"], ["-t", "default:8,1"], ["-t", "main:1", "-t", "default:1,1"], [], ["-t", "default:1,8"],
+            ["-t", "unknown:1,1"], ["-t", "64"]]
+    out.append({"kind": "threads", "tree": "manylinks", "specs": many, "timeout": 30})
+    out.append({"kind": "threads", "tree": "manylinks", "specs": many, "timeout": 30, "env": {"FCLONES_VERIF_DISK_KIND": "unknown"}})
     out.append({"kind": "roots", "tree": "multi"})
     # overlapping input paths: the result may depend neither on their order nor on the size of the walking pool
     for extra in ([], ["--depth", "1"], ["--depth", "2"], ["--hidden"], ["-L"]):
@@ -156,7 +164,7 @@ for i, L in enumerate((100, 4096, 4097, 12000, 16384, 16385, 20000, 65536, 70000
 def tree_of(name):
     if name == "two_devices":
         return TWO_DEVICES
-    return {"seam5": SEAM_TREE_5, "seam6": SEAM_TREE_6, "multi": MULTI, "seamlinks": SEAM_TREE_LINKS, "seamodd": SEAM_TREE_ODD, "overlap": OVERLAP}[name]
+    return {"seam5": SEAM_TREE_5, "seam6": SEAM_TREE_6, "multi": MULTI, "seamlinks": SEAM_TREE_LINKS, "seamodd": SEAM_TREE_ODD, "manylinks": MANY_LINKS, "overlap": OVERLAP}[name]
 
 
 def roots_of(name):
@@ -167,8 +175,11 @@ def roots_of(name):
     return ["r1", "r2", "r3", "r4"] if name == "multi" else ["r"]
 
 
+RUN_TIMEOUT = [120]
+
+
 def run(sc, args, env, stdin=b""):
-    rc, out, err, to = C.fclones(["group", "--min", "0", "-f", "json"] + args, sc, env_extra=env, stdin=stdin, timeout=120)
+    rc, out, err, to = C.fclones(["group", "--min", "0", "-f", "json"] + args, sc, env_extra=env, stdin=stdin, timeout=RUN_TIMEOUT[0])
     if to:
         return "hang", None
     if rc != 0:
@@ -197,8 +208,13 @@ def _evaluate(case, sc, loop_mp):
     if True:
         C.make_tree(sc.tree, tree_of(case["tree"]))
         roots = case.get("args", []) + case.get("extra", []) + roots_of(case["tree"])
-        env0 = {"FCLONES_VERIF_DISK_KIND": "ssd"}
+        env0 = dict({"FCLONES_VERIF_DISK_KIND": "ssd"}, **case.get("env", {}))
+        RUN_TIMEOUT[0] = case.get("timeout", 120)
         err, base = run(sc, roots, env0)
+        if err == "hang":
+            return {"violations": [{"kind": "hang", "what_varied": "nothing (plain run)",
+                                    "detail": "`group %s` on tree %s did not finish within %d s (%s)" % (roots, case["tree"], RUN_TIMEOUT[0], env0)}],
+                    "states": 1, "transitions": 1, "nontrivial": [[case["kind"], case["tree"], "baseline"]], "outcome": "hang"}
         if err:
             raise C.MachineryError("baseline run failed: %s" % err)
 
@@ -212,7 +228,7 @@ def _evaluate(case, sc, loop_mp):
             states += 1
             keys.append([case["kind"], case["tree"], label])
             if e == "hang":
-                viol.append({"kind": "hang", "what_varied": what, "detail": "%s %s did not finish within 120 s" % (args, env)})
+                viol.append({"kind": "hang", "what_varied": what, "detail": "%s %s did not finish within %d s" % (args, env, RUN_TIMEOUT[0])})
                 return
             if e:
                 viol.append({"kind": "run_failed", "what_varied": what, "detail": "%s %s: %s" % (args, env, e)})
